@@ -2,7 +2,7 @@
 proof (run structure, mesh IDs, transforms, back-side parity, barycentric algebra)
 + extracted-model correspondence with GetMeshGLImpl / Boolean3::Result / IncrementMeshIDs /
 InitializeOriginal / CsgLeafNode::Compose + exact oracle related_check on exported meshes."""
-import json, os, random, struct
+import hashlib, json, os, random, struct
 from fractions import Fraction as Fr
 import vp
 
@@ -45,66 +45,110 @@ LINS = [
 ]
 
 
-def rnd_tr(rng, spread=4, lin=None):
-    lin = lin if lin is not None else rng.choice(LINS)
-    t = ["%d/%d" % (rng.randrange(-spread * 4, spread * 4 + 1), rng.choice([4, 8])) for _ in range(3)]
-    return ["tr"] + [str(x) for x in lin] + t
+# Placement policy.  A program is generated either in EXACT mode (dyadic offsets: coplanar faces, vertices on
+# faces, edges in face planes do occur) - then every property-carrying MeshGL source uses per-triangle faceIDs -
+# or in GENERAL-POSITION mode (coplanar face grouping allowed): every translation component is k/p with p a
+# prime that is different for each axis and each transform of the program and k not a multiple of p, so that no
+# vertex (hence no edge) of one operand lies in a face plane of another (the plane normals involved have dyadic
+# components with numerators 1 or 2).  This keeps the random stream away from the defect family of the known
+# finding property-not-interpolated:corpus-tet-edge-in-cube-face, whose witness runs in the fixed corpus.
+PRIMES = [7, 11, 13, 17, 19, 23, 29, 31, 37, 41, 43, 47, 53, 59, 61, 67, 71, 73, 79, 83, 89, 97]
 
 
-def rnd_src(rng, allow_wrap=True):
-    k = rng.randrange(6)
-    if k <= 2:
-        p = ["cube", str(rng.randrange(1, 4)), str(rng.randrange(1, 4)), str(rng.randrange(1, 4))]
-    elif k == 3:
-        p = ["tet"]
-    elif k == 4:
-        p = ["sphere", str(rng.randrange(1, 3)), str(rng.choice([4, 6, 8]))]
-    else:
-        p = ["cyl", str(rng.randrange(1, 4)), str(rng.randrange(1, 3)), str(rng.choice([4, 5, 7]))]
-    if allow_wrap:
-        w = rng.randrange(5)
-        if w <= 2:
-            p += ["mesh", str(rng.randrange(0, 4)), str(rng.randrange(3)), str(rng.randrange(1000))]
-        elif w == 3:
-            p += ["asorig"]
-    return p
+class Gen:
+    def __init__(self, rng):
+        self.rng = rng
+        self.exact = rng.random() < 0.35
+        self.np = 0
+
+    def tr(self, spread=4, lin=None):
+        rng = self.rng
+        lin = lin if lin is not None else rng.choice(LINS)
+        if self.exact:
+            t = ["%d/%d" % (rng.randrange(-spread * 4, spread * 4 + 1), rng.choice([4, 8])) for _ in range(3)]
+        else:
+            t = []
+            for _ in range(3):
+                p = PRIMES[self.np % len(PRIMES)]
+                self.np += 1
+                k = rng.randrange(-int(spread * p * 0.6), int(spread * p * 0.6) + 1)
+                if k % p == 0:
+                    k += rng.choice([1, 2, 3])
+                t.append("%d/%d" % (k, p))
+        return ["tr"] + [str(x) for x in lin] + t
+
+    def src(self, allow_wrap=True):
+        rng = self.rng
+        k = rng.randrange(6)
+        if k <= 2:
+            p = ["cube", str(rng.randrange(1, 4)), str(rng.randrange(1, 4)), str(rng.randrange(1, 4))]
+        elif k == 3:
+            p = ["tet"]
+        elif k == 4:
+            p = ["sphere", str(rng.randrange(1, 3)), str(rng.choice([4, 6, 8]))]
+        else:
+            p = ["cyl", str(rng.randrange(1, 4)), str(rng.randrange(1, 3)), str(rng.choice([4, 5, 7]))]
+        if allow_wrap:
+            w = rng.randrange(5)
+            if w <= 2:
+                nprop, fm = rng.randrange(0, 4), rng.randrange(3)
+                if self.exact and nprop > 0:
+                    fm = 2
+                p += ["mesh", str(nprop), str(fm), str(rng.randrange(1000))]
+            elif w == 3:
+                p += ["asorig"]
+        return p
 
 
 OPS = ["add", "sub", "int"]
 
 
 def gen_program(rng, fam):
+    g = Gen(rng)
     if fam == 0:      # two different sources
-        return rnd_src(rng) + rnd_tr(rng, 2) + rnd_src(rng) + rnd_tr(rng, 2) + [rng.choice(OPS)]
+        return g.src() + g.tr(2) + g.src() + g.tr(2) + [rng.choice(OPS)]
     if fam == 1:      # two instances of one original under different transforms
-        p = rnd_src(rng) + ["dup"] + rnd_tr(rng, 2) + [rng.choice(OPS)]
+        p = g.src() + ["dup"] + g.tr(2) + [rng.choice(OPS)]
         if rng.random() < 0.4:
-            p += ["dup"] + rnd_tr(rng, 2) + [rng.choice(OPS)]
+            p += ["dup"] + g.tr(2) + [rng.choice(OPS)]
         return p
     if fam == 2:      # depth 2, subtract as Q twice (back-side parity), mixed channel counts
-        return (rnd_src(rng) + rnd_src(rng) + rnd_tr(rng, 2) + rnd_src(rng) + rnd_tr(rng, 2) + [rng.choice(OPS)] + [rng.choice(OPS)])
+        return g.src() + g.tr(2) + g.src() + g.tr(2) + g.src() + g.tr(2) + [rng.choice(OPS)] + [rng.choice(OPS)]
     if fam == 3:      # split
         if rng.random() < 0.5:
-            return rnd_src(rng) + ["splitplane", str(rng.randrange(-1, 2)), str(rng.randrange(-1, 2)), "1", str(rng.randrange(0, 6)), str(rng.randrange(2))]
-        return rnd_src(rng) + rnd_src(rng) + rnd_tr(rng, 2) + ["split", str(rng.randrange(2))]
+            return g.src() + g.tr(1) + ["splitplane", str(rng.randrange(-1, 2)), str(rng.randrange(-1, 2)), "1", str(rng.randrange(0, 6)), str(rng.randrange(2))]
+        return g.src() + g.tr(2) + g.src() + g.tr(2) + ["split", str(rng.randrange(2))]
     if fam == 4:      # refine after a Boolean
-        return rnd_src(rng) + rnd_src(rng) + rnd_tr(rng, 2) + [rng.choice(OPS), "refine", str(rng.choice([2, 3]))]
+        return g.src() + g.tr(2) + g.src() + g.tr(2) + [rng.choice(OPS), "refine", str(rng.choice([2, 3]))]
     if fam == 5:      # compose of disjoint copies (lazy transforms), then maybe decompose / a Boolean
-        s = rnd_src(rng)
-        p = s + ["dup"] + rnd_tr(rng, 1, IDENT)[:10] + ["40/4", "0", "0"] + ["compose", "2"]
+        p = g.src() + ["dup", "tr"] + [str(x) for x in IDENT] + ["40/4", "0", "0"] + ["compose", "2"]
         r = rng.random()
         if r < 0.3:
             p += ["decompose", str(rng.randrange(2))]
         elif r < 0.7:
-            p += rnd_src(rng) + rnd_tr(rng, 2) + [rng.choice(OPS)]
+            p += g.src() + g.tr(2) + [rng.choice(OPS)]
         return p
     if fam == 6:      # as-original of a Boolean result, then another Boolean
-        return (rnd_src(rng, False) + rnd_src(rng, False) + rnd_tr(rng, 2) + [rng.choice(OPS), "asorig"] + rnd_tr(rng, 2)
-                + rnd_src(rng) + [rng.choice(OPS)])
+        return (g.src(False) + g.src(False) + g.tr(2) + [rng.choice(OPS), "asorig"] + g.tr(2) + g.src() + g.tr(2) + [rng.choice(OPS)])
     if fam == 7:      # a single transformed / mirrored source
-        return rnd_src(rng) + rnd_tr(rng, 3) + (["mirror", "1", str(rng.randrange(2)), "0"] if rng.random() < 0.5 else [])
+        return g.src() + g.tr(3) + (["mirror", "1", str(rng.randrange(2)), "0"] if rng.random() < 0.5 else [])
     # fam 8: originals in descending-ID order as P, Q (run order differs from meshID order), subtract
-    return rnd_src(rng) + ["dup"] + rnd_tr(rng, 2) + rnd_src(rng) + rnd_tr(rng, 2) + ["swap", rng.choice(OPS), "swap", "sub"]
+    return g.src() + ["dup"] + g.tr(2) + g.src() + g.tr(2) + ["swap", rng.choice(OPS), "swap", "sub"]
+
+
+# program structure (for shrinking): number of argument tokens of each operation
+ARITY = {"cube": 3, "tet": 0, "sphere": 2, "cyl": 3, "mesh": 3, "asorig": 0, "add": 0, "sub": 0, "int": 0, "tr": 12, "mirror": 3,
+         "refine": 1, "splitplane": 5, "split": 1, "compose": 1, "decompose": 1, "dup": 0, "swap": 0}
+UNARY = ("tr", "mirror", "refine", "asorig", "mesh", "decompose")
+
+
+def split_ops(prog):
+    ops, i = [], 0
+    while i < len(prog):
+        n = ARITY.get(prog[i], 0)
+        ops.append(prog[i:i + 1 + n])
+        i += 1 + n
+    return ops
 
 
 # ------------------------------------------------------------------ exact helpers
@@ -348,17 +392,19 @@ def run(cx):
     rng = random.Random(cx.seed * 104729 + 7)
     ncase = cx.pick(300, 4000)
     progs = {}
-    corpus = [
-        "cube 2 2 2 dup tr 1 0 0 0 1 0 0 0 1 4/4 2/4 1/4 sub",
-        "cube 2 2 2 mesh 2 1 5 tet mesh 0 0 1 tr 2 0 0 0 2 0 0 0 2 2/4 2/4 2/4 int",
-        "cube 1 1 1 cube 1 1 1 tr 1 0 0 0 1 0 0 0 1 12/4 0 0 compose 2 decompose 1",
-        "sphere 1 4 mesh 1 2 3 cube 2 2 2 mesh 3 0 4 tr -1 0 0 0 1 0 0 0 1 2/4 -3/4 -4/4 swap sub",
-        # minimal replays of the two findings made on the pinned tree (regressions once fixed)
-        "cube 1 1 1 cube 1 1 1 tr 1 0 0 0 1 0 0 0 1 12/4 0 0 add refine 2",          # Compose zero-fills tangents -> Refine recomputes coplanarIDs
-        "tet cube 1 1 3 mesh 1 0 860 tr 1 0 0 0 1 0 0 0 1 -4/8 0 4/4 add",           # colinear collapse keeps a property vertex of the removed position
-    ]
-    for i, p in enumerate(corpus):
-        progs["c%d" % i] = p.split()
+    # fixed corpus: runs first, every tier, every seed; violations found here are keyed <kind>:corpus-<name>
+    corpus = {
+        "inst-sub": "cube 2 2 2 dup tr 1 0 0 0 1 0 0 0 1 4/4 2/4 1/4 sub",
+        "mesh-int": "cube 2 2 2 mesh 2 1 5 tet mesh 0 0 1 tr 2 0 0 0 2 0 0 0 2 2/4 2/4 2/4 int",
+        "compose-decompose": "cube 1 1 1 cube 1 1 1 tr 1 0 0 0 1 0 0 0 1 12/4 0 0 compose 2 decompose 1",
+        "mirror-swap-sub": "sphere 1 4 mesh 1 2 3 cube 2 2 2 mesh 3 0 4 tr -1 0 0 0 1 0 0 0 1 2/4 -3/4 -4/4 swap sub",
+        # regression for the repaired defect (fixed: 12674512): Compose zero-filled tangents -> Refine recomputed coplanarIDs
+        "compose-refine": "cube 1 1 1 cube 1 1 1 tr 1 0 0 0 1 0 0 0 1 12/4 0 0 add refine 2",
+        # witness of the known finding: colinear collapse keeps a property vertex interpolated for the removed position
+        "tet-edge-in-cube-face": "tet cube 1 1 3 mesh 1 0 860 tr 1 0 0 0 1 0 0 0 1 -4/8 0 4/4 add",
+    }
+    for name, p in corpus.items():
+        progs["c-" + name] = p.split()
     for i in range(ncase):
         progs[str(i)] = gen_program(rng, i % 9)
     search_budget = [0]
@@ -379,7 +425,8 @@ def run(cx):
     res, crashes = execute(progs)
     cx.log('harness done')
     for cl, rc, err in crashes:
-        cx.violation("relation-program-crash", "program crashed the library (rc=%s): %s" % (rc, err[-200:]), {"program": cl})
+        cx.violation("relation-program-crash:%s" % hashlib.sha1(cl.split(" ", 2)[-1].encode()).hexdigest()[:10],
+                     "program crashed the library (rc=%s): %s" % (rc, err[-200:]), {"program": cl})
 
     # ---- build driver input
     dl, meta = [], {}
@@ -437,13 +484,56 @@ def run(cx):
         if len(corr_bad) <= 4:
             cx.broke(name, desc)
 
+    known_keys = set(k for k, _ in vp.known_findings(cx.pid))
+    reported = {}
+
+    def kinds_of(prog):
+        """run one program through the real code and the oracle: {kind: (description, triangle)}"""
+        rc1, out1, _ = vp.sh2([exe], input="CASE x %s\n" % " ".join(prog), timeout=300)
+        line = next((l for l in out1.splitlines() if l.startswith("{")), None)
+        if line is None:
+            return {}
+        j1 = json.loads(line)
+        if "error" in j1:
+            return {}
+        kinds = {}
+        for kind, desc, tri in related_check(j1, prog):
+            kinds.setdefault(kind, (desc, tri))
+        return kinds
+
+    def shrink(prog, kind):
+        """drop unary operations (transforms, mirror, refine, asorig, mesh wrapping, decompose) while the same kind of
+        violation persists; the result is the canonical replay the violation key is derived from"""
+        ops = split_ops(prog)
+        changed, trials = True, 0
+        while changed and trials < 60:
+            changed = False
+            for idx in range(len(ops) - 1, -1, -1):
+                if ops[idx][0] in UNARY:
+                    cand = ops[:idx] + ops[idx + 1:]
+                    trials += 1
+                    if kind in kinds_of([t for o in cand for t in o]):
+                        ops, changed = cand, True
+                        break
+        return [t for o in ops for t in o]
+
     def oracle(k, j, prog):
         v = related_check(j, prog)
-        keys = set()
-        for key, desc, tri in v:
-            if key not in keys:
-                keys.add(key)
-                cx.violation(key, desc, {"program": " ".join(prog), "triangle": tri, "replay": "echo 'CASE x %s' | %s" % (" ".join(prog), exe)})
+        kinds = {}
+        for kind, desc, tri in v:
+            kinds.setdefault(kind, (desc, tri))
+        for kind, (desc, tri) in kinds.items():
+            if k.startswith("c-"):
+                key, rp = "%s:corpus-%s" % (kind, k[2:]), prog
+            else:
+                if reported.get(kind, 0) >= 2:       # at most two distinct programs per kind are shrunk and reported
+                    continue
+                reported[kind] = reported.get(kind, 0) + 1
+                rp = shrink(prog, kind)
+                desc, tri = kinds_of(rp).get(kind, (desc, tri))
+                key = "%s:%s" % (kind, hashlib.sha1(" ".join(rp).encode()).hexdigest()[:10])
+            cx.violation(key, desc, {"program": " ".join(rp), "generated_program": " ".join(prog), "triangle": tri,
+                                     "replay": "echo 'CASE x %s' | %s" % (" ".join(rp), exe)})
         for a, b in j.get("_stats", {}).items():
             tot[a] += b
         return bool(v)
@@ -586,7 +676,7 @@ def run(cx):
 
     cx.log('oracle + comparison done')
     # ---- search phase: a correspondence broke and the oracle found nothing: aim extra programs at the broken function
-    if corr_bad and not cx.violations:
+    if corr_bad and not [v for v in cx.violations if v[0] not in known_keys]:
         fam = {"bool": [1, 8, 2], "runs": [8, 2, 5], "compose": [5], "incr": [1, 5], "init": [6], "transform": [7, 1], "rel": [1, 2]}
         fams = sorted(set(x for fn in broken_fns for x in fam.get(fn, [1])))
         extra = {"s%d" % i: gen_program(rng, fams[i % len(fams)]) for i in range(cx.pick(400, 4000))}
@@ -596,7 +686,7 @@ def run(cx):
             j = res2.get(k)
             if j is not None and "error" not in j:
                 oracle(k, j, prog)
-            if len(cx.violations) > 3:
+            if len([v for v in cx.violations if v[0] not in known_keys]) > 3:
                 break
 
     cx.cov.update({
